@@ -135,25 +135,63 @@ pub struct Rq {
     pub m: String,
     pub host: String,
     pub path: String,
+    /// value of the Origin header sent with the request ("" = none)
+    pub origin: String,
 }
 fn rq_from_json(v: &Value) -> Rq {
-    Rq { m: s(v, "m"), host: s(v, "host"), path: s(v, "path") }
+    Rq { m: s(v, "m"), host: s(v, "host"), path: s(v, "path"), origin: s(v, "origin") }
+}
+fn rq_to_json(rq: &Rq) -> Value {
+    json!({"m": rq.m, "host": rq.host, "path": rq.path, "origin": rq.origin})
+}
+
+/// The tokens of all lines of one header name: split at ",", trimmed, empty ones dropped, sorted, without repetition
+/// (`lower`: header names inside Access-Control-Allow-Headers are case-insensitive). This is only a reading aid for
+/// the second, policy-free level of judging (Cors.tla: AcceptSets); the strict level compares the raw lines.
+fn tokens(lines: &[String], lower: bool) -> Vec<String> {
+    let mut t: Vec<String> = lines
+        .iter()
+        .flat_map(|l| l.split(','))
+        .map(|x| x.trim())
+        .filter(|x| !x.is_empty())
+        .map(|x| if lower { x.to_ascii_lowercase() } else { x.to_string() })
+        .collect();
+    t.sort();
+    t.dedup();
+    t
+}
+fn as_sorted_set(v: &Value) -> Vec<String> {
+    let mut t: Vec<String> = v.as_array().map(|a| a.iter().filter_map(|x| x.as_str().map(|y| y.to_string())).collect()).unwrap_or_default();
+    t.sort();
+    t.dedup();
+    t
+}
+/// Second level: is the observed token set one of the alternatives TLC printed for this request (acc = AcceptSets)?
+fn statement_accepts(acc: &Value, got: &Value) -> bool {
+    if acc.get("free").and_then(|f| f.as_bool()) == Some(true) {
+        return true;
+    }
+    ["o", "m", "h"].iter().all(|k| {
+        let obs = as_sorted_set(&got["tok"][*k]);
+        acc.get(*k).and_then(|alts| alts.as_array()).map(|alts| alts.iter().any(|a| as_sorted_set(a) == obs)).unwrap_or(false)
+    })
 }
 
 fn find(hay: &[u8], needle: &[u8]) -> Option<usize> {
     hay.windows(needle.len()).position(|w| w == needle)
 }
 
-/// One request on a fresh connection (`Connection: close`, read to EOF). `variant` adds what a browser would
-/// send (Origin, Access-Control-Request-*): the server must not depend on them.
-/// Observation: {"status", "ac": {"o","m","h","c","z"}, "at"} (the shape of Cors.tla's Respond).
-fn http_once(port: u16, rq: &Rq, variant: usize) -> Result<Value, String> {
+/// One request on a fresh connection (`Connection: close`, read to EOF). A request with an Origin also carries what
+/// a browser would send with a preflight (Access-Control-Request-*).
+/// Observation: {"status", "ac": {"o","m","h","c","z"}, "at"} (the shape of Cors.tla's Respond) plus
+/// "tok": {"o","m","h"} (token sets, see `tokens`). Header names are matched case-insensitively, lines in any order.
+fn http_once(port: u16, rq: &Rq) -> Result<Value, String> {
     let mut req = format!("{} {} HTTP/1.1\r\n", rq.m, rq.path);
     if !rq.host.is_empty() {
         req.push_str(&format!("Host: {}\r\n", rq.host));
     }
-    if variant % 2 == 1 {
-        req.push_str("Origin: http://a.test\r\n");
+    if !rq.origin.is_empty() {
+        req.push_str(&format!("Origin: {}\r\n", rq.origin));
         if rq.m == "OPTIONS" {
             req.push_str("Access-Control-Request-Method: PUT\r\nAccess-Control-Request-Headers: x-token\r\n");
         }
@@ -228,7 +266,8 @@ fn http_once(port: u16, rq: &Rq, variant: usize) -> Result<Value, String> {
         } else {
             0
         };
-        return Ok(json!({"status": status, "ac": {"o": o, "m": m, "h": h, "c": c, "z": z}, "at": at}));
+        let tok = json!({"o": tokens(&o, false), "m": tokens(&m, false), "h": tokens(&h, true)});
+        return Ok(json!({"status": status, "ac": {"o": o, "m": m, "h": h, "c": c, "z": z}, "at": at, "tok": tok}));
     }
     Err(last)
 }
@@ -259,6 +298,8 @@ struct Job {
     id: usize,
     calls: Vec<Call>,
     exp: Vec<Value>,
+    /// per request: what the statement alone accepts (Cors.tla AcceptSets)
+    accv: Vec<Value>,
 }
 
 fn replay<S: Server>(workers: usize) {
@@ -279,7 +320,8 @@ fn replay<S: Server>(workers: usize) {
                 continue;
             }
             let exp = v.get("exp").and_then(|e| e.as_array()).cloned().unwrap_or_default();
-            jobs.push_back(Job { id: jobs.len() + skipped, calls, exp });
+            let accv = v.get("acc").and_then(|e| e.as_array()).cloned().unwrap_or_default();
+            jobs.push_back(Job { id: jobs.len() + skipped, calls, exp, accv });
         }
     }
     let njobs = jobs.len();
@@ -287,9 +329,11 @@ fn replay<S: Server>(workers: usize) {
     let queue = Arc::new(Mutex::new(jobs));
     // (apps, requests, mismatches, nontrivial, errors, not stopped, first mismatches, samples)
     let acc = Arc::new(Mutex::new((0usize, 0usize, 0usize, 0usize, Vec::<String>::new(), 0usize, Vec::<Value>::new(), Vec::<Value>::new())));
+    // second level: answers that differ from today's code model but that the statement accepts (count, first ones)
+    let drift = Arc::new(Mutex::new((0usize, Vec::<Value>::new())));
     let mut hs = Vec::new();
     for _ in 0..workers.max(1) {
-        let (queue, acc, reqs) = (queue.clone(), acc.clone(), reqs.clone());
+        let (queue, acc, reqs, drift) = (queue.clone(), acc.clone(), reqs.clone(), drift.clone());
         hs.push(thread::spawn(move || loop {
             let job = match queue.lock().unwrap().pop_front() {
                 Some(j) => j,
@@ -305,7 +349,8 @@ fn replay<S: Server>(workers: usize) {
             let mut local = (0usize, 0usize, 0usize, Vec::<Value>::new(), Vec::<Value>::new(), Vec::<String>::new());
             for (i, rq) in reqs.iter().enumerate() {
                 let exp = job.exp.get(i).cloned().unwrap_or(Value::Null);
-                match http_once(srv.port(), rq, job.id + i) {
+                let accepts = job.accv.get(i).cloned().unwrap_or(Value::Null);
+                match http_once(srv.port(), rq) {
                     Ok(got) => {
                         local.0 += 1;
                         // non-trivial: the expected answer carries at least one Access-Control-* header
@@ -313,15 +358,25 @@ fn replay<S: Server>(workers: usize) {
                         if nt {
                             local.2 += 1;
                         }
-                        if got != exp {
+                        // level 1: exactly what the code model predicts (status, raw Access-Control-* lines, handler)
+                        let strict = got["status"] == exp["status"] && got["ac"] == exp["ac"] && got["at"] == exp["at"];
+                        if !strict && statement_accepts(&accepts, &got) {
+                            // level 2: not today's code, but still "the matched route's CORS headers": drift, no violation
+                            let mut d = drift.lock().unwrap();
+                            d.0 += 1;
+                            if d.1.len() < 5 {
+                                d.1.push(json!({"calls": job.calls.iter().map(call_to_json).collect::<Vec<_>>(),
+                                                "req": rq_to_json(rq), "code_model_expected": exp, "statement_accepts": accepts, "got": got}));
+                            }
+                        } else if !strict {
                             local.1 += 1;
                             if local.3.len() < 3 {
                                 local.3.push(json!({"calls": job.calls.iter().map(call_to_json).collect::<Vec<_>>(),
-                                                    "req": {"m": rq.m, "host": rq.host, "path": rq.path}, "expected": exp, "got": got}));
+                                                    "req": rq_to_json(rq), "expected": exp, "statement_accepts": accepts, "got": got}));
                             }
                         } else if nt && local.4.is_empty() && job.id % 97 == 0 {
                             local.4.push(json!({"calls": job.calls.iter().map(call_to_json).collect::<Vec<_>>(),
-                                                "req": {"m": rq.m, "host": rq.host, "path": rq.path}, "got": got}));
+                                                "req": rq_to_json(rq), "got": got}));
                         }
                     }
                     Err(e) => local.5.push(format!("app {} request {}: {}", job.id, i, e)),
@@ -353,7 +408,8 @@ fn replay<S: Server>(workers: usize) {
         let _ = h.join();
     }
     let a = acc.lock().unwrap();
-    out_line(&json!({"summary": true, "jobs": njobs, "skipped_defsub": skipped, "apps": a.0, "requests": a.1, "mismatches": a.2,
+    let d = drift.lock().unwrap();
+    out_line(&json!({"summary": true, "drifts": d.0, "first_drift": d.1, "jobs": njobs, "skipped_defsub": skipped, "apps": a.0, "requests": a.1, "mismatches": a.2,
                      "nontrivial": a.3, "errors": a.4.len(), "first_errors": a.4.iter().take(5).collect::<Vec<_>>(),
                      "not_stopped": a.5, "first": a.6, "samples": a.7}));
 }
@@ -367,6 +423,7 @@ const HOSTPATS: [&str; 4] = ["one.test", "two.test", "*.test", "one.*"];
 const HOSTS: [&str; 6] = ["", "one.test", "two.test", "three.test", "one.example", "other.example"];
 const HKINDS: [&str; 7] = ["plain", "ownO", "ownM", "ownH", "ownAll", "cred", "dupO"];
 const ORIGINS: [&str; 5] = ["http://a.test", "https://b.test:8443", "null", "http://localhost:3000", "https://xn--bcher-kva.example"];
+const REQ_ORIGINS: [&str; 4] = ["http://a.test", "https://b.test:8443", "null", "http://evil.test"];
 const METHODS: [&str; 5] = ["GET", "POST", "PUT", "DELETE", "OPTIONS"];
 const HEADERS: [&str; 9] = ["Content-Type", "content-type", "CONTENT-TYPE", "Authorization", "authorization", "X-Token", "x-token", "X-Api-Key", "x-api-key"];
 
@@ -428,7 +485,12 @@ fn random<S: Server>(apps: usize, per_app: usize, workers: usize) {
     for id in 0..apps {
         let calls = random_calls(&mut rng, S::FULL_API);
         let reqs: Vec<Rq> = (0..per_app)
-            .map(|_| Rq { m: pk(&mut rng, &METHODS).to_string(), host: pk(&mut rng, &HOSTS).to_string(), path: pk(&mut rng, &PATHS).to_string() })
+            .map(|_| Rq {
+                m: pk(&mut rng, &METHODS).to_string(),
+                host: pk(&mut rng, &HOSTS).to_string(),
+                path: pk(&mut rng, &PATHS).to_string(),
+                origin: if rng.chance(1, 3) { String::new() } else { pk(&mut rng, &REQ_ORIGINS).to_string() },
+            })
             .collect();
         jobs.push_back((id, calls, reqs));
     }
@@ -451,10 +513,11 @@ fn random<S: Server>(apps: usize, per_app: usize, workers: usize) {
                 }
             };
             let mut lines = vec![json!({"t": "app", "calls": calls.iter().map(call_to_json).collect::<Vec<_>>(),
-                                        "m": "", "host": "", "path": "", "got": {"status": 0, "ac": {"o": [], "m": [], "h": [], "c": [], "z": []}, "at": 0}})];
+                                        "m": "", "host": "", "path": "", "origin": "",
+                                        "got": {"status": 0, "ac": {"o": [], "m": [], "h": [], "c": [], "z": []}, "at": 0, "tok": {"o": [], "m": [], "h": []}}})];
             for (i, rq) in reqs.iter().enumerate() {
-                match http_once(srv.port(), rq, id + i) {
-                    Ok(got) => lines.push(json!({"t": "req", "calls": [], "m": rq.m, "host": rq.host, "path": rq.path, "got": got})),
+                match http_once(srv.port(), rq) {
+                    Ok(got) => lines.push(json!({"t": "req", "calls": [], "m": rq.m, "host": rq.host, "path": rq.path, "origin": rq.origin, "got": got})),
                     Err(e) => errs.lock().unwrap().push(format!("app {} request {}: {}", id, i, e)),
                 }
             }
